@@ -69,7 +69,7 @@ def instantiate(templates, key, nested, extra_holes=None, rep_subst=None):
     def fill(m):
         name = m.group(1)
         if name in nested:
-            return " " + instantiate(templates, nested[name], nested) + " "
+            return " " + instantiate(templates, nested[name], nested, extra_holes, rep_subst) + " "
         if name in extra_holes:
             return " " + extra_holes[name] + " "
         if name in TYPE_HOLES:
@@ -117,3 +117,25 @@ def proxy_methods_source(templates, side="contract"):
         if want[kind] not in text:
             raise TranslateError("generated %s proxy method: the template no longer contains `%s`" % (kind, want[kind]))
     return write_source("proxy_methods_%s" % side, "impl ProxyT { %s }" % " ".join(fns))
+
+
+def reply_builders_source(templates):
+    """the generated sub-message builders of a reply handler (contract/communication/reply.rs: emit_submsg_setter for an existing
+    SubMsg, emit_submsg_converter for a WasmMsg / CosmosMsg), each with a typed and with a raw payload. The holes `#reply_on`
+    and `#reply_id` are VALUES of the generated code (the trigger and the id constant): they become two extra parameters,
+    so the statements hold for every trigger and id; the payload parameters become ONE parameter `args`."""
+    base = "contract/communication/reply.rs::"
+    ser = {"typed": base + "<Vec<&MsgField<'_>>asPayloadFields>::emit_payload_serialization#t1",
+           "raw": base + "<Vec<&MsgField<'_>>asPayloadFields>::emit_payload_serialization#t0"}
+    fns = []
+    for recv, key in (("setter", base + "ReplyData<'a>::emit_submsg_setter#t0"), ("converter", base + "ReplyData<'a>::emit_submsg_converter#t0")):
+        for mode in ("typed", "raw"):
+            fns.append(instantiate(templates, key, {"payload_serialization": ser[mode]},
+                                   extra_holes={"method_name": "%s_%s" % (recv, mode), "reply_on": "reply_on_hole", "reply_id": "reply_id_hole",
+                                                "payload_value": "args"},
+                                   rep_subst={"payload_parameters": "args : ArgsT , reply_on_hole : ReplyOnT , reply_id_hole : u64",
+                                              "payload_values": "args"}))
+    for f in fns:
+        if "reply_on : reply_on_hole" not in " ".join(f.split()) or "id : reply_id_hole" not in " ".join(f.split()):
+            raise TranslateError("generated reply builder: the template no longer sets reply_on / id from #reply_on / #reply_id")
+    return write_source("reply_builders", "impl BuilderT { %s }" % " ".join(fns))
